@@ -262,6 +262,10 @@ def gen_front_cases(ctx, n):
              "/.well-known/caldav", "/.well-known/carddav/", "/foo/.well-known/caldav", "/.well-known", "/.well-known/foo",
              "/x/.well-known/", "/.well-known/caldav/x", "/u/../v/", "/u/./c", "/radicale", "/radicale/", "/radicale2/cal/",
              "/radicale/radicale/cal/", "/r", "/ralph/", "/my app/u/", "/my app", "/my apple/", "/a/b/c", "/a/bc", "/é/x", "/éx"]
+    # PATH_INFO is text already: a path that reads as the bytes of another one under some codec of the request path
+    # (UTF-8 / ISO-8859-1 / cp1252 / percent-encoding, both directions) is that very path, not the other one
+    for p in ["/u/café.ics", "/é/x", "/my app/日本/", "/radicale/ß €"]:
+        paths += [p.replace(n, t) for n in [c for c in p.split("/") if c] for k, t in X.codec_readings(n)]
     cases = []
     for cfg in ["", "/radicale", "/my app", "/r"]:
         for pi in paths:
@@ -276,6 +280,11 @@ def gen_front_cases(ctx, n):
         base = rng.choice([cfg, x or "", sn or "", ""])
         tail = rng.choice(paths + ["/" + X.rand_component(rng) + rng.choice(["", "/"]), X.rand_url(rng, 6)])
         pi = rng.choice([tail, base + tail, base + tail, base, base.rstrip("/") + "x" + tail])
+        if rng.random() < 0.15:
+            # the whole path read under another codec pair
+            rd = [t for k, t in X.codec_readings(pi.replace("/", "\x00")) if "\x00" in t or "/" not in pi]
+            if rd:
+                pi = rng.choice(rd).replace("\x00", "/")
         cases.append((cfg, rp, x, sn, pi))
     return cases
 
@@ -719,6 +728,45 @@ def run_scenario(sc):
         return fails, stats, fr.log[-6:] if fails else []
 
 
+def component_ok(s):
+    return bool(s) and "/" not in s and s not in (".", "..") and not s.startswith(".") and not s.endswith("~") \
+        and len(s.encode("utf-8")) <= 200
+
+
+def coherent_repertoire(rng, sc, kind, ext):
+    """One codec pair for the whole deployment (X.codec_readings): user and collection are spelled in the reading
+    `kind`, and the collection holds each name TOGETHER with its reading, so that a site which applies the codec once
+    too often or too seldom lands on the other item instead of on nothing."""
+    def read(n):
+        t = X.reading_of(n, kind)
+        return t if t is not None and component_ok(t) else None
+    for key in ("user", "col"):
+        t = read(sc[key])
+        if t is not None and ":" not in t:
+            sc[key] = t
+    names, taken = [], set()
+    for tries in range(60):
+        if len(names) >= 4:
+            break
+        n = sc["names"][tries] if tries < len(sc["names"]) else X.rand_component(rng, 8) + rng.choice(["", ext])
+        t = read(n)
+        if t is None or n.lower() in taken or t.lower() in taken or n.lower() == t.lower():
+            continue
+        names += [n, t]
+        taken |= {n.lower(), t.lower()}
+    if not names:
+        return
+    moves = []
+    for m in sc["move_names"]:
+        t = read(m)
+        m = t if t is not None else m
+        while m.lower() in taken:
+            m = "m" + m
+        taken.add(m.lower())
+        moves.append(m)
+    sc.update(names=names, move_names=moves, repertoire=kind)
+
+
 def gen_scenario(rng, mode=None, prefix=None):
     mode = mode or rng.choice(X.MODES)
     if prefix is None:
@@ -748,9 +796,11 @@ def gen_scenario(rng, mode=None, prefix=None):
             moves.append(n)
     sc = dict(mode=mode, prefix=prefix, user=user, col=X.rand_component(rng, 6), kind=kind, names=names, move_names=moves,
               style=rng.choice(["strict", "pchar"]), web=rng.choice(["internal", "internal", "none"]))
+    if rng.random() < 0.3:
+        coherent_repertoire(rng, sc, rng.choice(X.READING_KINDS), ext)
     if mode == "configfile-full-xff":
         sc["prefix"], sc["file_value"] = gen_file_prefix(rng)
-    elif rng.random() < 0.4:
+    elif rng.random() < 0.4 and sc["user"].isascii():
         # a legacy charset for request bodies; credentials are read in that charset too, so the login stays ASCII
         sc["encoding"] = rng.choice(ENCODINGS[1:])
         while not sc["user"].isascii() or ":" in sc["user"]:
@@ -803,6 +853,14 @@ FIXED_SCENARIOS += [
          encoding="iso-8859-1"),
     # [web] type = none
     dict(mode="proxy-strip", prefix="/my app", user="u", col="cal", kind="C", names=["a.ics"], move_names=["x.ics"], web="none"),
+]
+FIXED_SCENARIOS += [
+    # a collection that holds names together with their readings under the codecs of the request path
+    dict(mode="none", prefix="", user="u", col="R\u00c3\u00a9union", kind="C",
+         names=["caf\u00e9.ics", "caf\u00c3\u00a9.ics", "caf%C3%A9.ics", "caf%25C3%25A9.ics", "\u00c2\u00a7 12.ics", "\u00a7 12.ics"],
+         move_names=["na\u00c3\u00afve.ics", "\u00e2\u201a\u00ac.ics"]),
+    dict(mode="proxy-full-xff", prefix="/d\u00c3\u00a4v", user="u2", col="\u00c3\u00bc", kind="CR",
+         names=["\u00e6\u2014\u00a5.vcf", "\u65e5.vcf"], move_names=["%E6%97%A5.vcf", "x"], encoding="iso-8859-1"),
 ]
 AMBIGUOUS_SCENARIO = dict(mode="proxy-strip-xff", prefix="/radicale", user="radicale", col="cal", kind="C", names=["a.ics"],
                           move_names=["x.ics"])
@@ -1109,6 +1167,7 @@ def monitors(ctx):
         fails, stats, log = run_scenario(sc)
         ctx.case(("scenario", json.dumps(sc, sort_keys=True)), nontrivial=sc_nontrivial(sc))
         ctx.count("scenario:" + sc["mode"])
+        ctx.count("scenario:repertoire:" + sc.get("repertoire", "mixed"))
         for k in total:
             total[k] += stats.get(k, 0)
         if fails and sc_ambiguous(sc):
